@@ -346,6 +346,14 @@ class C19(core.Check):
                                                                       "`\\u12`", "`\\U1`"])])
         elif x_ < 0.24:
             nodes.insert(rw.randint(0, len(nodes)), ["t", rw.choice(["□", "□ ,", "□ E", "□ h E ,"])])
+        rp_ = sub_rng(seed, self.id, run, "polyglot")
+        if rp_.random() < 0.03:
+            # a program the PARSER rejects (a lambda whose arity is not an integer) that is at the same time valid Python
+            # carrying a payload: whatever the error path does with the text it failed to transpile, it must not run it
+            c_ = CANARY_EXPR.format(tag="tp")
+            nodes = [["t", rp_.choice([f"λ=1|{c_}", f"λ=[{c_}]|0", "λ=1|print('C19-HOST-OUT')", f"λ=1|{c_}\n", f"λ=0|1;{c_}",
+                                      f"λx=1;λx|{c_}", "λ=1|__import__('sys').stdout.write('C19-HOST-OUT')"])]]
+            taint, uses_eval = True, True
         fk = rf.choice(["none", "fail", "fail", "kill", "kill", "kill_sweep", "stdin", "net", "stdin_lines"])
         fault = dict(kind=fk)
         if fk == "fail":
